@@ -6,6 +6,7 @@ package verifbench
 // ResponseWriter that mimics net/http's header-snapshot and trailer rules.
 
 import (
+	"golang.org/x/net/http/httpguts"
 	"bufio"
 	"bytes"
 	"compress/zlib"
@@ -122,6 +123,7 @@ type Backend struct {
 	IgnoreReadErr bool    `json:"ignore_read_err,omitempty"` // answer per script even if reading the request failed
 	CloseBody     bool    `json:"close_body,omitempty"`      // call Request.Body.Close() after reading, before answering (as proxies do)
 	CloseAfterWrites int  `json:"close_after_writes,omitempty"` // with CloseBody: close only after this many response Write calls
+	ReadAfterWrites  int  `json:"read_after_writes,omitempty"`  // full-duplex handler: reads the request only after this many response Write calls (0: reads first), and answers per script whatever the read yields
 }
 
 type Scenario struct {
@@ -322,6 +324,8 @@ type Recorder struct {
 	Body         bytes.Buffer
 	Events       []Event
 	Anomalies    []string
+	Notes        []string // what the driver did where net/http would (omitted header values, ...)
+	HTTP2        bool
 	Informational []int
 	done         *int32
 	callsAfterDone int32
@@ -372,7 +376,9 @@ func (r *Recorder) writeHeaderLocked(code int) {
 		if strings.HasPrefix(k, http.TrailerPrefix) {
 			continue
 		}
-		r.Head[k] = append([]string(nil), v...)
+		if vals := r.transmittable(k, v); len(vals) > 0 {
+			r.Head[k] = vals
+		}
 	}
 	if cl := r.Head.Get("Content-Length"); cl != "" {
 		var n int64
@@ -443,15 +449,39 @@ func (r *Recorder) Trailers() http.Header {
 			ck := http.CanonicalHeaderKey(k)
 			if v, ok := r.live[ck]; ok {
 				// net/http takes whatever is in the map at the end for a declared key
-				out[ck] = append(out[ck], v...)
+				out[ck] = append(out[ck], r.transmittable(ck, v)...)
 			}
 		}
 	}
 	for k, v := range r.live {
 		if strings.HasPrefix(k, http.TrailerPrefix) {
 			ck := http.CanonicalHeaderKey(strings.TrimPrefix(k, http.TrailerPrefix))
-			out[ck] = append(out[ck], v...)
+			out[ck] = append(out[ck], r.transmittable(ck, v)...)
 		}
+	}
+	for k, v := range out {
+		if len(v) == 0 {
+			delete(out, k)
+		}
+	}
+	return out
+}
+
+// transmittable mimics what net/http does to header values it cannot put on the wire: the HTTP/2
+// server omits a value that is not a valid field value (control characters other than TAB, DEL), the
+// HTTP/1 server replaces CR and LF by spaces. Either is noted for diagnostics.
+func (r *Recorder) transmittable(k string, vals []string) []string {
+	out := make([]string, 0, len(vals))
+	for _, v := range vals {
+		if httpguts.ValidHeaderFieldValue(v) {
+			out = append(out, v)
+			continue
+		}
+		if r.HTTP2 {
+			r.Notes = append(r.Notes, fmt.Sprintf("header %s: value %q omitted (not a valid HTTP/2 field value)", k, v))
+			continue
+		}
+		out = append(out, strings.NewReplacer("\r", " ", "\n", " ").Replace(v))
 	}
 	return out
 }
@@ -702,6 +732,7 @@ func runScenarioFull(sc *Scenario, shared *sharedTranscoder, noFlusher bool, wit
 	}
 	out.Snapshot = snapshotRequest(req)
 	rec := newRecorder(&done)
+	rec.HTTP2 = sc.Client.HTTP2
 	out.Rec = rec
 	br.root = rec
 	if noFlusher {
